@@ -434,13 +434,14 @@ def check_C13(tier, seed, res, builtins, log):
             k = next(i for i, (x, y) in enumerate(zip(pa + [None], pb + [None])) if x != y)
             sb = pa[k][2] if k < len(pa) else 0
             # find the char at that byte
-            pos, ch = 0, None
-            for cp in c['input']:
+            pos, ch, around = 0, None, c['input'][:8]
+            for idx, cp in enumerate(c['input']):
                 if pos == sb:
                     ch = cp
+                    around = c['input'][idx:idx + 4]
                     break
                 pos += reflex.utf8_len(cp)
-            violations.append({'definition': corpus.lexer_text(d), 'def_json': pipeline.def_to_json(d), 'input': [ch] if ch is not None else c['input'][:8], 'script': [],
+            violations.append({'definition': corpus.lexer_text(d), 'def_json': pipeline.def_to_json(d), 'input': around, 'script': [],
                                'what': 'built-in class lexer differs from the Rust predicate at token %d (char %s): got %s expected %s' % (k, ch, pa[k] if k < len(pa) else None, pb[k] if k < len(pb) else None)})
     cov = {'evaluations': n_chars, 'distinct_nontrivial': len(progs), 'programs': len(progs), 'table_obligations_ok': table_ok,
            'lookup_shapes': shapes, 'tables_differing_from_predicates': sorted(bad_points),
